@@ -18,17 +18,18 @@ fn env_texts(full: bool) -> Vec<String> {
     v
 }
 
-/// decorated word space: every word of W(I4, L) (long segments included) with three
+/// decorated word space: every word of W(I4, L) (long segments included) with five
 /// stress/tone decorations that cycle with the index
 fn words(max_len: usize) -> Vec<CW> {
     let inv: Vec<SegBits> = ["p", "t", "a", "i"].iter().map(|t| seg(t)).collect();
     let mut out = vec![];
     for (k, w) in word_space(&inv, max_len).into_iter().enumerate() {
-        for d in 0..3 {
+        // decorations 3 and 4 vary one tier only: neighbouring syllables that differ in tone alone / in stress alone
+        for d in 0..5 {
             let mut x = w.clone();
             for (i, sy) in x.iter_mut().enumerate() {
-                sy.stress = match d { 0 => 0, 1 => ((k + i) % 3) as u8, _ => ((k + 2 * i + 1) % 3) as u8 };
-                sy.tone = match d { 0 => 0, 1 => [0, 5, 51, 1234][(k + i) % 4], _ => [51, 0, 5, 5][(k / 2 + i) % 4] };
+                sy.stress = match d { 0 | 3 => 0, 1 | 4 => ((k + i) % 3) as u8, _ => ((k + 2 * i + 1) % 3) as u8 };
+                sy.tone = match d { 0 => 0, 1 | 3 => [0, 5, 51, 1234][(k + i) % 4], 4 => 5, _ => [51, 0, 5, 5][(k / 2 + i) % 4] };
             }
             out.push(x);
         }
@@ -172,7 +173,7 @@ fn sandwich_mod(rule: usize, a: &mut Acc) {
 pub fn run() -> i32 {
     let mut r = Report::new("C07");
     let thorough = r.thorough();
-    r.rule = "(a) `X1=1 .. Xk=k > 1 .. k`, Xi in {[], [+cons], C, V, %, ⟨...⟩, ⟨CV⟩, %:[+stress]}, with no environment and with every one-item-per-side environment over {p,t,a,i,[+cons],C,V,[+hi],{p,a},$,#}; (b) `[αF] > [αF]`, `[-αF] > [-αF]` for 26 features, `[αN] > [αN]` for lab/cor/dor/phr/place, alphas on long / overlong / stress / sec.stress alone and in pairs, on matrices, `%`, groups and IPA; x decorated words of W(I4,L) (long segments, stress, tones) and, for (b), every one-segment word over the segment universe; oracle: result == input. (c) `a > i / X=1 _ 1` for X in {[], C, V, [+cons], %} vs a reference that fires exactly between identical neighbours. (e) `a > i / X=1 _ 1:[-long]` (and `[-stress]`) on /x a y/ for x, y over 31 phones incl. secondary-articulation twins: fires iff x == y. (d) a variable inside a structure of the context (`C=1 a > i / _ ⟨1 a⟩`, before-context, after an ellipsis, before an ellipsis) vs the literal rules applied one after the other. Non-trivial = rule compiled, call returned Ok.".into();
+    r.rule = "(a) `X1=1 .. Xk=k > 1 .. k`, Xi in {[], [+cons], C, V, %, ⟨...⟩, ⟨CV⟩, %:[+stress]}, with no environment and with every one-item-per-side environment over {p,t,a,i,[+cons],C,V,[+hi],{p,a},$,#}; (b) `[αF] > [αF]`, `[-αF] > [-αF]` for 26 features, `[αN] > [αN]` for lab/cor/dor/phr/place, alphas on long / overlong / stress / sec.stress alone and in pairs, on matrices, `%`, groups and IPA; x decorated words of W(I4,L) (long segments, stress, tones) and, for (b), every one-segment word over the segment universe; oracle: result == input. (c) `a > i / X=1 _ 1` for X in {[], C, V, [+cons], %} vs a reference that fires exactly between identical neighbours. (e) `a > i / X=1 _ 1:[-long]` (and `[-stress]`) on /x a y/ for x, y over 31 phones incl. secondary-articulation twins: fires iff x == y. (f) identity rules that use a variable again inside the input (`X=1 1 > 1 1`, `X=1 Y=2 1 2 > 1 2 1 2`, ...). (d) a variable inside a structure of the context (`C=1 a > i / _ ⟨1 a⟩`, before-context, after an ellipsis, before an ellipsis) vs the literal rules applied one after the other. Non-trivial = rule compiled, call returned Ok.".into();
     let l = if thorough { 4 } else { 3 };
     let ws = words(l);
     let kmax = if thorough { 3 } else { 2 };
@@ -209,6 +210,21 @@ pub fn run() -> i32 {
     par_fold(xs.len(), 1, Acc::default, |i, a| sandwich(xs[i], &wc, a), |a| tc.merge(a));
     r.boxes.push(json!({"box": "(c) variable in context", "rules": xs.len(), "words": wc.len(), "evaluated": tc.evals, "fired": tc.fire, "not_fired": tc.nofire}));
     r.guard(tc.fire > 0 && tc.nofire > 0, "(c) fires on some words and not on others");
+    // (f) a variable used again inside the input: `X=1 1 > 1 1`, `X=1 Y=2 1 2 > 1 2 1 2`, ... restate their input as well; the second
+    // occurrence may only match an element identical to the captured one (same segments, stress and tone), otherwise the copy written back differs
+    let mut reuse: Vec<(String, String)> = vec![];
+    for x in XS { for e in &envs_side { reuse.push((format!("{}=1 1 > 1 1{}", x, e), "var-reuse".to_string())); } }
+    for x in XS { for y in XS {
+        reuse.push((format!("{}=1 {}=2 1 2 > 1 2 1 2", x, y), "var-reuse".to_string()));
+        reuse.push((format!("{}=1 {}=2 1 > 1 2 1", x, y), "var-reuse".to_string()));
+        reuse.push((format!("{}=1 {}=2 2 > 1 2 2", x, y), "var-reuse".to_string()));
+        reuse.push((format!("{}=1 1 {}=2 2 > 1 1 2 2", x, y), "var-reuse".to_string()));
+    } }
+    let mut tf = Acc::default();
+    par_fold(reuse.len(), 4, Acc::default, |i, a| identity_rule(&reuse[i].0, &reuse[i].1, &wc, a), |a| tf.merge(a));
+    r.boxes.push(json!({"box": "(f) variable used again inside the input (identity rules)", "rules": reuse.len(), "words": wc.len(), "applications": tf.evals, "unchanged": tf.same, "runtime_errors": tf.errs, "rejected_rules": tf.rejected, "error_kinds": tf.err_kinds}));
+    r.guard(tf.same > 100_000, "(f) more than 100k Ok applications");
+    tot.merge(tf);
     // (d)
     let mut td = Acc::default();
     par_fold(4, 1, Acc::default, |i, a| var_in_structure(i, &wc, a), |a| td.merge(a));
